@@ -19,7 +19,7 @@ OUTSIDE = 'float rounding near thresholds; decompose_theta_qr_based (chain of fa
 STUBS = ['numpy facade for tenpy.linalg.truncation (log -> monotone UF, norm -> sqrt variable)', 'svd_flat / eigh contract stub (svd_theta, eigh_rho cases)']
 ASSUMPTIONS = [
     'floats are reals', 'spectrum entries are exact zeros or > 1e-100, svd_min > 1e-100 (the 1e-100 clipping region of truncate is outside the claim)',
-    'np.log is modelled as an uninterpreted strictly monotone function with log(1)=0 (functional consistency per path)'
+    'np.log: comparisons between sums of logarithms are rewritten exactly as comparisons of products (degeneracy_tol is given as log of a symbolic ratio > 1); no property of log other than monotonicity and log(xy)=log x+log y is used'
 ]
 
 
@@ -103,7 +103,11 @@ def truncate_case(ctx, n, chi_max, chi_min, use_svd_min, use_trunc_cut, use_deg,
         ctx.assume(tc < 1)
         opts['trunc_cut'] = tc
     if use_deg:
-        opts['degeneracy_tol'] = ctx.real('deg_tol', pos=True)
+        # degeneracy_tol = log(r) for a symbolic ratio r > 1: `log(S[i]) - log(S[j]) >= log(r)` is then decided
+        # exactly as `S[i] >= r * S[j]` (no uninterpreted logarithm left in any query)
+        r = ctx.real('deg_ratio', pos=True)
+        ctx.assume(r > 1)
+        opts['degeneracy_tol'] = _log(ctx, r)
     mask, norm_new, err = truncate(S, dict(opts))
     mask = np.asarray(mask, dtype=bool)
     k = int(mask.sum())
